@@ -1,3 +1,5 @@
+//go:build verif
+
 package zz_verif
 
 import (
@@ -36,3 +38,5 @@ func H_C10() {
 	vx.Assert("C10", sameSet(hashSet(got), want), "the most recent entries")
 	vx.Cover("c10-done")
 }
+
+var _ = register("H_C10", H_C10)
